@@ -9,7 +9,7 @@ use crate::{PropRun, Tier};
 use serde_json::{json, Value};
 use std::time::Duration;
 
-pub const RULE: &str = "scripts of 0..25 lines (one in twenty-five: 260..760 lines, mostly cheap ones) over the real binary's stdin: uci / isready / ucinewgame / valid position commands / cheap go commands (depth 1..2 on pre-screened positions, movetime <= 20) / unknown lines (first token not a command, no command word as a later token; ASCII, UTF-8, lines containing bytes that are not valid UTF-8, and very long lines up to 70 000 characters) / blank lines, interleaved; ending in quit (possibly with further lines after it) or in end of input (with or without a final newline; stdin closed immediately or after the transcript is complete). Oracle: stdout must parse, with nothing left over and nothing missing, against the slot sequence derived line by line (uci -> 'id ' lines [+ 'option ' lines] then 'uciok'; isready -> 'readyok'; go -> info* then exactly one bestmove; everything else -> nothing; nothing after quit), and the process must exit with status 0 after quit and after end of input (5 s allowance on an idle process; still-alive is corroborated by CPU time still increasing). Non-trivial = >=1 unknown or blank line between two answered commands, or ends by EOF; distinct by script text.";
+pub const RULE: &str = "scripts of 0..25 lines (one in twenty-five: 260..760 lines, mostly cheap ones) over the real binary's stdin: uci / isready / ucinewgame / valid position commands (a third of them continuing the previous one's game by one or two moves, also across a ucinewgame) / cheap go commands (depth 1..2 on pre-screened positions, movetime <= 20) / unknown lines (first token not a command, no command word as a later token; ASCII, UTF-8, lines containing bytes that are not valid UTF-8, and very long lines up to 70 000 characters) / blank lines, interleaved; ending in quit (possibly with further lines after it) or in end of input (with or without a final newline; stdin closed immediately or after the transcript is complete). Oracle: stdout must parse, with nothing left over and nothing missing, against the slot sequence derived line by line (uci -> 'id ' lines [+ 'option ' lines] then 'uciok'; isready -> 'readyok'; go -> info* then exactly one bestmove; everything else -> nothing; nothing after quit), and the process must exit with status 0 after quit and after end of input (5 s allowance on an idle process; still-alive is corroborated by CPU time still increasing). Non-trivial = >=1 unknown or blank line between two answered commands, or ends by EOF; distinct by script text.";
 
 #[derive(Debug, Clone, PartialEq)]
 enum Slot {
@@ -44,7 +44,34 @@ fn gen_script(s: &mut Src) -> Script {
             }
             3 => {
                 have_pos = Some(true);
-                script::gen_cheap_position(s, 2, 60_000, 40)
+                // a third of the position lines continue the game of the previous position line by
+                // one or two moves (a GUI restates the whole game) — also across a ucinewgame
+                let prev = lines.iter().rev().find_map(|l| match l {
+                    Line::Position { text, result, history } => Some((text.clone(), result.clone(), history.clone())),
+                    _ => None,
+                });
+                match prev {
+                    Some((text, result, history)) if s.chance(35) => {
+                        let mut t = text.trim_end().to_string();
+                        let mut p = result.clone();
+                        let mut h = history.clone();
+                        let mut has_moves = t.split_whitespace().any(|x| x == "moves");
+                        for _ in 0..1 + s.below(2) {
+                            let legal = p.legal_moves();
+                            let Some(m) = crate::gen::choose_move(s, &p, &legal) else { break };
+                            if !has_moves {
+                                t.push_str(" moves");
+                                has_moves = true;
+                            }
+                            t.push(' ');
+                            t.push_str(&m.uci());
+                            p = p.make(m);
+                            h.push(p.clone());
+                        }
+                        Line::Position { text: t, result: p, history: h }
+                    }
+                    _ => script::gen_cheap_position(s, 2, 60_000, 40),
+                }
             }
             4 => {
                 if have_pos.is_none() {
